@@ -148,6 +148,10 @@ var hideMechanisms = []string{
 	` hidden="hidden"`,
 	` hidden="false"`,
 	` hidden="FALSE"`,
+	// the class that exempts Wikimedia's math images from aria-hidden does not undo any other way of hiding
+	` class="mwe-math-fallback-image-inline" style="display:none"`,
+	` hidden class="fallback-image"`,
+	` class="fallback-image" style="visibility:hidden"`,
 }
 
 func (g *docGen) hideAttr() string {
@@ -323,8 +327,10 @@ func (g *docGen) render(n *cnode) string {
 		}
 	case "SHR":
 		w := g.rawWords(n)
-		return g.pick(`<div class="sharing">`+w+`</div>`, `<div class="socialArea">`+w+`</div>`, `<div data-component="share">`+w+`</div>`,
+		box := g.pick(`<div class="sharing">`+w+`</div>`, `<div class="socialArea">`+w+`</div>`, `<div data-component="share">`+w+`</div>`,
 			`<section class="sharing"><a href="/share">`+w+`</a></section>`)
+		// such boxes usually come with an end marker or their loader right behind them - nothing a reader sees
+		return box + g.pick("", "", `<!-- /sharing -->`, `<script>var sx7 = 1;</script>`, `<!-- end --><script async src="/js/share.js"></script>`)
 	case "SKF":
 		w := g.rawWords(n)
 		switch g.pick("form", "button", "select", "textarea", "object", "applet", "label-input") {
